@@ -110,8 +110,38 @@ def run_driver(exe, script_lines, log_path, fill=None, timeout=120, env=None):
     return rc, ev, err
 
 
+_JAVA_OK = []
+import threading
+_JAVA_LOCK = threading.Lock()
+
+
+def ensure_java_overrides(cwd):
+    """MasaReal.class (the TLC module override of MasaReal.tla) is a build product: compile it when it is missing or
+    older than its source (tools/setup.sh does the same; a fresh checkout that skipped setup still works)."""
+    src = os.path.join(cwd, 'MasaReal.java'); cls = os.path.join(cwd, 'MasaReal.class')
+    if cwd in _JAVA_OK or not os.path.exists(src):
+        return
+    with _JAVA_LOCK:
+        _ensure_java_locked(cwd, src, cls)
+
+
+def _ensure_java_locked(cwd, src, cls):
+    if cwd in _JAVA_OK:
+        return
+    if not os.path.exists(cls) or os.path.getmtime(cls) < os.path.getmtime(src):
+        tmp = os.path.join(CACHE, 'javac-%d' % os.getpid()); os.makedirs(tmp, exist_ok=True)
+        r = subprocess.run(['javac', '-cp', TLA_JAR, '-d', tmp, src], stdout=subprocess.PIPE, stderr=subprocess.STDOUT, text=True)
+        if r.returncode:
+            raise InfraError('javac MasaReal.java failed: ' + r.stdout[-2000:])
+        for f in os.listdir(tmp):
+            os.replace(os.path.join(tmp, f), os.path.join(cwd, f))        # atomic per file: concurrent checks may do the same
+        shutil.rmtree(tmp, ignore_errors=True)
+    _JAVA_OK.append(cwd)
+
+
 def tlc(module, cfg, cwd, env=None, workers=1, timeout=600, extra=None, classpath_extra=None, heap='4g', metadir=None):
     """Run TLC; returns (returncode, output)."""
+    ensure_java_overrides(cwd)
     cp = [TLA_JAR, TLA_DEPS] + (classpath_extra or [])
     md = metadir or os.path.join(CACHE, 'tlc-meta', '%d-%d' % (os.getpid(), int(time.time() * 1e6) % 10**9))
     os.makedirs(md, exist_ok=True)
